@@ -109,3 +109,29 @@ Definition run_c16_pe (e back ind : sexp) : outcome :=
       end
   | None => out_bad "c16.pe"
   end.
+
+(* the fields of a key in any order: the element read back is the same element, it
+   re-serialises to the canonical text, and a set holding it parses to the set it denotes *)
+Definition run_c16_keyorder (e back again paths : sexp) (res : list sexp) : outcome :=
+  match dec_pe e, dec_paths paths, dec_from res with
+  | Some e, Some expect, Some obs =>
+      match back with
+      | SAtom "err" => mkOut ["prop a key with its fields in another order is rejected"] 1 1 []
+      | SAtom "panic" => mkOut ["prop path element codec panicked"] 1 1 []
+      | _ =>
+          match dec_pe back with
+          | Some b =>
+              mkOut (chk (peeqb e b && peeqb b e) "prop the fields of a key may come in any order: the element read is the same element" @@
+                     chk (match again with SAtom "t" => true | _ => false end)
+                         "prop equal elements serialise to identical text" @@
+                     match obs with
+                     | None => ["prop parsing panicked"]
+                     | Some (parsed, err) =>
+                         chk (psame parsed expect && negb err) "prop a set whose key has its fields in another order parses to the set it denotes"
+                     end)
+                    3 1 []
+          | None => out_bad "c16.keyorder back"
+          end
+      end
+  | _, _, _ => out_bad "c16.keyorder"
+  end.
